@@ -652,7 +652,39 @@ class Directed(Scenario):
             if self.dead:
                 break
             k = r.random()
-            if k < 0.55:
+            if k < 0.06 and sent:
+                # a duplicate and a segment that raises the segment-size estimate in ONE batch
+                dup = r.choice(list(sent))
+                self.inject(0, seq=dup, payload=sent[dup])
+                seq = self.peer_next
+                pl = self.peer_payload(r.choice([1000, 1400, 1452]))
+                sent[seq] = pl
+                self.peer_pos += len(pl)
+                self.peer_next = (self.peer_next + 1) % 65536
+                self.inject(0, seq=seq, payload=pl)
+                self.do("vs poll")
+            elif k < 0.12:
+                # the local transport is blocked exactly when a duplicate / out-of-order packet arrives
+                self.do("vs tmode pend 0")
+                if sent and r.random() < 0.5:
+                    dup = r.choice(list(sent))
+                    self.inject(0, seq=dup, payload=sent[dup])
+                else:
+                    n = r.choice([100, 528])
+                    hole = self.peer_payload(n)
+                    hole_seq = self.peer_next
+                    sent[hole_seq] = hole
+                    self.peer_pos += n
+                    seq = (self.peer_next + 1) % 65536
+                    pl = self.peer_payload(n)
+                    sent[seq] = pl
+                    self.peer_pos += n
+                    self.peer_next = (self.peer_next + 2) % 65536
+                    self.inject(0, seq=seq, payload=pl)
+                self.do("vs poll")
+                self.do("vs tmode ok")
+                self.do("vs poll")
+            elif k < 0.55:
                 n = r.choice([1, 100, 264, 528, 528, 528, 1000, 1400])
                 style = r.random()
                 if style < 0.7 or not sent:
